@@ -44,6 +44,9 @@ EXPORTS = {
 }
 
 
+FORCED = {}
+
+
 def side_effect_sweep(chk, MX, n):
     rng = chk.rng
     names = list(api.ANALYSES) + list(EXPORTS)
@@ -54,6 +57,18 @@ def side_effect_sweep(chk, MX, n):
         wind = rng.random() < 0.6
         sd, acs = scene_for(chk, MX, multi, wind)
         done += 1
+        if not multi and (done % 3 == 0 or an == "export_pylot_model"):
+            # an atmosphere that varies with altitude and an aircraft high up: what the control points see depends on where the aircraft is, so
+            # an analysis that moves the aircraft away and back has to refresh the scene's arrays even when the attitude is the one it used
+            # (every other time in the default attitude)
+            sd["scene"]["atmosphere"]["rho"] = "standard"
+            FORCED["altitude"] = FORCED.get("altitude", 0) + 1
+            for nm_, ac_, st_, cs_ in acs:
+                st_["position"] = [round(rng.uniform(-100, 100), 1), round(rng.uniform(-100, 100), 1), -round(rng.uniform(3000, 8000), 1)]
+                if (FORCED["altitude"] % 2 == 1 or an == "export_pylot_model") and "orient" not in an:
+                    st_.pop("orientation", None)
+                    chk.count("standard-atmosphere-at-altitude:default-attitude")
+            chk.count("standard-atmosphere-at-altitude")
         if "orient" in an:
             # (a banked, moderately pitched attitude: the trim converges and Earth-fixed and body-fixed components differ)
             for nm_, ac_, st_, cs_ in acs:
